@@ -28,7 +28,7 @@ import (
 func init() {
 	engine.Register(&engine.Check{
 		ID: "C12", Name: "readonly-concurrent", Level: "model_checking",
-		Rule: "(b) for each of 11 scenarios (2-3 goroutines, one operation each, on a shared value or on independent documents): every schedule with at most k preemptions over the yield points of the instrumented " +
+		Rule: "(b) for each of 12 scenarios (2-3 goroutines, one operation each, on a shared value or on independent documents): every schedule with at most k preemptions over the yield points of the instrumented " +
 			"library (every function entry, function literal and loop body, and before/after every pooling, locking or atomic call), by iterative preemption-bounded DFS; per execution: every thread's result equals the sequential result, the shared values' and the " +
 			"values' deep snapshot is unchanged at the end; a changed package-level variable is counted, not judged (a synchronised cache is legitimate - whether shared state matters is decided by the results and the race pass) (on the executions that open each sub-tree additionally: the shared values at every yield point - every 8th for S9 - and the package-level variables whenever the processor changes hands), no panic; states = distinct (scenario, schedule) executions; " +
 			"(a) every read-only operation (incl. every niladic marshaler / String / observer method of the leaf types - language lists, entries, texts, tags, IRIs, media types, nested structs - found in the value) x every universe value: deep snapshot before == after, results of an earlier call unchanged by a later one; (c) every scenario free-running under the race detector (quick: 16 goroutines x 25 rounds; thorough: 3 x 32 goroutines x 40 rounds; S9 with 16-32 KiB texts)",
